@@ -11,7 +11,7 @@
 (*            (negative upper bound, integer columns, fixed, free, crossed);   *)
 (*  "rows":   2 default columns, 2 rows with every combination of              *)
 (*            coefficients {-1,0,1,3/2}, sense L/G/E/R, right-hand side        *)
-(*            {-1,0,5/2}, range {1, 7/3}, objective {0,1}^2, min/max           *)
+(*            {-1,0,5/2}, range {0, 1, 7/3}, objective {0,1}^2, min/max           *)
 (*            (empty rows, ranged rows as two halves, zero objective);         *)
 (*  "rowsq":  the same with fewer values (quick tier);                         *)
 (*  "names" / "namesq" (fewer names):  column, row and objective names that need repair (leading        *)
@@ -31,7 +31,7 @@ MPSF == INSTANCE MPSFile
 
 Row(f, n) == SelectSeq([j \in 1..n |-> [j |-> j, v |-> f[j]]], LAMBDA e : e.v # "0")
 Cols == [obj : {"0", "-1", "2/3"}, lo : {"-inf", "-2", "0", "1"}, up : {"-1", "0", "1", "5/2", "inf"}, int : {0, 1}]
-RowsF == [a : [1..2 -> {"-1", "0", "1", "3/2"}], s : {"L", "G", "E", "R"}, b : {"-1", "0", "5/2"}, r : {"1", "7/3"}]
+RowsF == [a : [1..2 -> {"-1", "0", "1", "3/2"}], s : {"L", "G", "E", "R"}, b : {"-1", "0", "5/2"}, r : {"0", "1", "7/3"}]
 
 InitBounds == \E c \in [1..2 -> Cols], mx \in BOOLEAN :
   lp = [m |-> 1, n |-> 2, A |-> <<Row(<<"1", "-3">>, 2)>>, sense |-> <<"L">>, rhs |-> <<"4">>, range |-> <<"0">>, rname |-> <<"r1">>,
@@ -42,9 +42,10 @@ InitRows == \E r \in [1..2 -> RowsF], c \in [1..2 -> {"0", "1"}], mx \in BOOLEAN
   /\ lp = [m |-> 2, n |-> 2, A |-> [i \in 1..2 |-> Row(r[i].a, 2)], sense |-> [i \in 1..2 |-> r[i].s], rhs |-> [i \in 1..2 |-> r[i].b],
            range |-> [i \in 1..2 |-> IF r[i].s = "R" THEN r[i].r ELSE "0"], rname |-> <<"r1", "r2">>,
            obj |-> c, lo |-> <<"0", "0">>, up |-> <<"inf", "inf">>, cname |-> <<"x", "y">>, isint |-> <<0, 0>>, max |-> mx]
-RowsQ == [a : [1..2 -> {"-1", "0", "3/2"}], s : {"L", "G", "E", "R"}, b : {"-1", "5/2"}, r : {"7/3"}]
+RowsQ == [a : [1..2 -> {"-1", "0", "3/2"}], s : {"L", "G", "E", "R"}, b : {"-1", "5/2"}, r : {"0", "7/3"}]
 InitRowsQ == \E r \in [1..2 -> RowsQ], c \in [1..2 -> {"0", "1"}], mx \in BOOLEAN :
-  lp = [m |-> 2, n |-> 2, A |-> [i \in 1..2 |-> Row(r[i].a, 2)], sense |-> [i \in 1..2 |-> r[i].s], rhs |-> [i \in 1..2 |-> r[i].b],
+  /\ (r[1].s # "R" => r[1].r = "0") /\ (r[2].s # "R" => r[2].r = "0")
+  /\ lp = [m |-> 2, n |-> 2, A |-> [i \in 1..2 |-> Row(r[i].a, 2)], sense |-> [i \in 1..2 |-> r[i].s], rhs |-> [i \in 1..2 |-> r[i].b],
         range |-> [i \in 1..2 |-> IF r[i].s = "R" THEN r[i].r ELSE "0"], rname |-> <<"r1", "r2">>,
         obj |-> c, lo |-> <<"0", "0">>, up |-> <<"inf", "inf">>, cname |-> <<"x", "y">>, isint |-> <<0, 0>>, max |-> mx]
 CNames == {"x", "1", "x1", "x_1", "x1_0", "a b", "2", ".5", "x2", "x.5", "", "x0", "x_0"}
